@@ -70,7 +70,16 @@ def m_memcmp(it, a):
         if x != y: return (1 if (x & 0xff) > (y & 0xff) else 0xffffffff)
     return 0
 def m_memcpy(it, a): it.memcpy(a[0], a[1], a[2]); return a[0]
-def m_strlen(it, a): return len(it.cstr(a[0]))
+def m_strlen(it, a):
+    # symbolic bytes: the terminator position is decided by forking on (byte == 0)
+    p = a[0]; n = 0
+    while True:
+        b = it.load(Ptr(p.obj, p.off + n), 1)
+        if b is UNDEF: return n
+        if is_sym(b):
+            if it.branch(b == 0): return n
+        elif b & 0xff == 0: return n
+        n += 1
 
 def base():
     M = {
